@@ -493,9 +493,13 @@ fn eval_request(ctx: &mut Ctx, rng: &mut Rng, req: &Req, thorough: bool) {
             vec![],
         );
     }
+    // three reference servers: the canonical one, one that uses every encoding freedom of the grammar, and
+    // one that also sends strings holding a quote or backslash as quoted strings with escapes (there the
+    // crate's value keeps the escapes, so only "accepted, one value of the right kind per item" is judged)
+    let mode = rng.below(3);
     let cfg = GenCfg {
         max_depth: if thorough { 3 } else { 2 },
-        adversarial: false,
+        adversarial: mode != 0 && rng.bool(),
         max_str: 10,
         max_lit: 40,
     };
@@ -516,16 +520,18 @@ fn eval_request(ctx: &mut Ctx, rng: &mut Rng, req: &Req, thorough: bool) {
         let seq = 7u32;
         // the reference server: `* 7 FETCH (item value ...)` - canonical spelling, and the
         // non-extensible `BODY (...)` for a BODY request
-        let st = Style {
-            random_case: false,
-            string_forms: 0,
-            zero_pad: 0,
-            deviations: false,
-            lsub: false,
-        };
         let mut r2 = Rng::new(s ^ 5);
+        let st = if mode == 0 {
+            Style { random_case: false, string_forms: 0, zero_pad: 0, deviations: false, lsub: false }
+        } else {
+            Style { random_case: r2.bool(), string_forms: r2.below(3) as u8, zero_pad: if r2.bool() { 0 } else { 2 }, deviations: false, lsub: false }
+        };
         let resp = Response::Fetch(seq, vals);
-        let wire = print_response(&resp, &mut r2, &st);
+        let wire = if mode == 2 {
+            vh_proto::print::with_escaped_quoted(|| print_response(&resp, &mut r2, &st))
+        } else {
+            print_response(&resp, &mut r2, &st)
+        };
         (resp, wire)
     });
     let (resp, wire) = match built {
@@ -572,7 +578,14 @@ fn eval_request(ctx: &mut Ctx, rng: &mut Rng, req: &Req, thorough: bool) {
     ctx.log.nontrivial(&hex(&reply));
     ctx.log.count(&format!("c16:items{}", items.len()));
     let want = format!("OK {} {}", reply.len(), ser::response(&resp));
-    if out != want {
+    ctx.log.count(&format!("c16:server-mode{}", mode));
+    let bad = if mode == 2 {
+        // accepted whole, one value of the right kind per item
+        !out.starts_with(&format!("OK {} ", reply.len())) || fetch_heads(&out) != fetch_heads(&want)
+    } else {
+        out != want
+    };
+    if bad {
         ctx.fail(
             "reply-rejected",
             format!(
@@ -585,6 +598,38 @@ fn eval_request(ctx: &mut Ctx, rng: &mut Rng, req: &Req, thorough: bool) {
             vec![format!("expect {} {}", hex(&reply), hex(want.as_bytes()))],
         );
     }
+}
+
+/// the constructor names of the attribute values of a serialised `(Fetch n [ (Head ..) (Head ..) ])`
+fn fetch_heads(s: &str) -> Vec<String> {
+    let mut heads = vec![];
+    let start = match s.find('[') {
+        Some(i) => i + 1,
+        None => return heads,
+    };
+    let b = s.as_bytes();
+    let mut depth = 0i32;
+    let mut i = start;
+    while i < b.len() {
+        match b[i] {
+            b'(' | b'[' => {
+                if depth == 0 && b[i] == b'(' {
+                    let j = s[i + 1..].find(|c: char| c == ' ' || c == ')').map(|k| i + 1 + k).unwrap_or(b.len());
+                    heads.push(s[i + 1..j].to_string());
+                }
+                depth += 1;
+            }
+            b')' | b']' => {
+                depth -= 1;
+                if depth < 0 {
+                    break;
+                }
+            }
+            _ => {}
+        }
+        i += 1;
+    }
+    heads
 }
 
 fn run_c16(ctx: &mut Ctx, rng: &mut Rng, thorough: bool, shard: usize, shards: usize) {
